@@ -256,6 +256,29 @@ class Ctx:
         return sigs
 
 
+    def replay_step(self, step, args=(), tier=None):
+        """re-run a whole enumeration step (same tier, seed and arguments: the enumeration order is deterministic) and return the
+        violation signatures it prints -- the replay of a violation that depends on the cases executed before it"""
+        exe = self.steps[step]['binary']
+        cmd = [exe, '--tier', tier or self.tier, '--seed', str(self.seed), '--jobs', str(NCPU)] + list(args)
+        env = harness_env()
+        env.update(getattr(self, 'replay_env', {}) or {})
+        try:
+            r = subprocess.run(cmd, capture_output=True, text=True, timeout=3600, errors='replace', env=env)
+        except subprocess.TimeoutExpired:
+            return ['TIMEOUT']
+        sigs = []
+        mapper = getattr(self, 'sig_mapper', None)
+        for line in r.stdout.split('\n'):
+            if line.startswith('VIOL '):
+                parts = line[5:].split('\t')
+                sg = parts[0]
+                if mapper:
+                    sg = mapper(sg, parts[2] if len(parts) > 2 else '') or sg
+                sigs.append(sg)
+        return sigs
+
+
 # ---------------------------------------------------------------- known findings
 def load_known(prop):
     known, fixed = [], []
@@ -300,9 +323,18 @@ def finish(ctx, level_note_assumptions=None):
                 # second attempt before declaring nondeterminism
                 rs = ctx.replay_case(v['step'], v['case'], v.get('args', ()))
             if sig not in rs and norm(sig) not in [norm(x) for x in rs]:
-                sys.stderr.write('FRAMEWORK ERROR: violation %s case [%s] did not reproduce on replay (got %s)\n' % (sig, v['case'], rs))
-                write_evidence(ctx, violations=len(bysig), extra={'framework_error': 'non-reproducible ' + sig})
-                return 2
+                # not reproducible in isolation: the failure may depend on the cases the worker executed before it (state that
+                # the code under test keeps between calls).  The enumeration is deterministic, so the whole step is the replay:
+                # the violation is reported only if the same signature comes back when the step is run again
+                rs2 = ctx.replay_step(v['step'], v.get('args', ()))
+                if sig in rs2 or norm(sig) in [norm(x) for x in rs2]:
+                    v['mode'] = 'step'
+                    v['detail'] += ' [the case passes when executed alone in a fresh process and fails again when the whole step is re-run: the result depends on earlier calls in the same process]'
+                    ctx.notes.append('violation %s reproduces only in the context of its enumeration step (replay re-runs the step)' % sig)
+                else:
+                    sys.stderr.write('FRAMEWORK ERROR: violation %s case [%s] did not reproduce on replay (got %s; whole step: %s)\n' % (sig, v['case'], rs, sorted(set(rs2))[:5]))
+                    write_evidence(ctx, violations=len(bysig), extra={'framework_error': 'non-reproducible ' + sig})
+                    return 2
             ctx.stats['traces_replayed'] = ctx.stats.get('traces_replayed', 0) + 1
         hit = None
         for k in known:
@@ -321,7 +353,7 @@ def finish(ctx, level_note_assumptions=None):
         for v in unknown:
             h = hashlib.sha1((v['sig'] + v['case']).encode()).hexdigest()[:12]
             path = os.path.join(OUT, 'replays', prop, '%s.json' % h)
-            json.dump({'property': prop, 'step': v['step'], 'args': v.get('args', []), 'case': v['case'], 'sig': v['sig'], 'detail': v['detail'],
+            json.dump({'property': prop, 'step': v['step'], 'args': v.get('args', []), 'case': v['case'], 'sig': v['sig'], 'detail': v['detail'], 'mode': v.get('mode', 'case'),
                        'tier': ctx.tier, 'how': 'bin/check %s --replay %s' % (prop, path)}, open(path, 'w'), indent=1)
             print('VIOLATION property=%s replay=%s' % (prop, path))
             print('  sig=%s case=[%s] %s' % (v['sig'], v['case'][:400], v['detail'][:300]))
